@@ -226,4 +226,8 @@ PARTS = [
     Part('trees', check_trees, strategy=gen_trees, n={'quick': 300, 'thorough': 6000}, workers={'quick': 4, 'thorough': 16}),
     Part('automata', check_automaton, strategy=gen_automaton, n={'quick': 300, 'thorough': 6000}, workers={'quick': 4, 'thorough': 16}),
     Part('dense_meaning', check_dense_meaning, strategy=gen_dense, n={'quick': 150, 'thorough': 2500}, workers={'quick': 2, 'thorough': 16}),
+    Part('fuzz_trees', None, fuzz_of='trees', runs={'quick': 0, 'thorough': 20000}, workers={'quick': 0, 'thorough': 4},
+         doc='atheris campaign over the tree grammar'),
+    Part('fuzz_automata', None, fuzz_of='automata', runs={'quick': 0, 'thorough': 20000}, workers={'quick': 0, 'thorough': 4},
+         doc='atheris campaign over the automaton grammar'),
 ]
